@@ -76,8 +76,7 @@ def check_case(run, case):
                 run.violation(f'level {L} ({mode}): generator output differs from brute force: {len(miss)}+ missing, {len(extra)}+ extra/duplicated',
                               case, observed={'missing': miss, 'extra': extra, 'n': len(got)}, expected={'n': len(exp)})
                 return False
-            if len(exp) >= 2:
-                run.nontrivial(h([case['omen'], L]))
+            run.case(h([case['omen'], L]) if len(exp) >= 2 else None)
             return True
         # (a) fresh optimizer per level
         base = {}
@@ -135,7 +134,7 @@ def check_case(run, case):
             return
         run.ev('interleaved_pairs')
         run.ev('cache_hits', hits['n'])
-        run.case()
+        run.ev('models')
         nz = {L: len(v) for L, v in expected.items() if v}
         run.sample({'ngram': case['omen']['ngram'], 'ip': case['omen']['ip'][:4], 'cp': case['omen']['cp'][:6], 'ln': case['omen']['ln'],
                     'strings_per_level': dict(sorted(nz.items())[:8]), 'cache_hits': hits['n']})
